@@ -158,4 +158,6 @@ def run(ctx):
     ns = len(ctx.suite_names)
     rep.floor('R07.1', 'fresh values', n_fresh, ns * (3 + 8 * 3))
     rep.floor('R07.2', 'covered transcript items', n_cov, ns * 8 * (3 + 7 + 7))
+    from rules import profile
+    profile.check(ctx, rep, 'R07.P', ['clog_start', 'slog_start', 'clog_finish', 'slog_finish'])
     return rep
